@@ -126,4 +126,17 @@ theorem brClosed_of_check (root : Block) (facts : Facts) (h : (mkCtx root facts)
     exact h2 g hg
 
 
+theorem mem_unreachable {root : Block} {i : Nat} : i ∈ unreachable root ↔ (i, false) ∈ tbl root := by
+  simp only [unreachable, tbl, List.mem_map, List.mem_filter]
+  constructor
+  · rintro ⟨r, ⟨hr, hl⟩, rfl⟩
+    refine ⟨r, hr, ?_⟩
+    cases h : r.live <;> simp_all
+  · rintro ⟨r, hr, he⟩
+    have a := congrArg Prod.fst he
+    have b := congrArg Prod.snd he
+    simp at a b
+    exact ⟨r, ⟨hr, by simp [b]⟩, a⟩
+
+
 end NaijaVerif.C03
